@@ -195,6 +195,18 @@ func (v *Validator) VerifyNewConfirms(block *types.Block, sigList []types.SignDa
 	validConfirms := make([]types.SignData, 0, len(sigList))
 	var lastErr error = nil
 
+	// The nodes which have signed this block: the miner and the signers of the saved confirms.
+	// A node is counted once, no matter how many different encodings of its signature are received
+	signedNodes := make(map[string]struct{}, len(block.Confirms)+1)
+	if minerNodeID, err := block.SignerNodeID(); err == nil {
+		signedNodes[string(minerNodeID)] = struct{}{}
+	}
+	for _, oldConfirm := range block.Confirms {
+		if oldNodeID, err := oldConfirm.RecoverNodeID(hash); err == nil {
+			signedNodes[string(oldNodeID)] = struct{}{}
+		}
+	}
+
 	for _, sig := range sigList {
 		// 判断validConfirms中是否已经存在sig了
 		if IsSigExist(validConfirms, sig) {
@@ -219,6 +231,11 @@ func (v *Validator) VerifyNewConfirms(block *types.Block, sigList []types.SignDa
 			log.Warn("Duplicate confirm", "hash", hash.Hex(), "signer", common.ToHex(nodeID[:4]))
 			continue
 		}
+		if _, ok := signedNodes[string(nodeID)]; ok {
+			log.Warn("Duplicate confirm signer", "hash", hash.Hex(), "signer", common.ToHex(nodeID[:4]))
+			continue
+		}
+		signedNodes[string(nodeID)] = struct{}{}
 		validConfirms = append(validConfirms, sig)
 	}
 	return validConfirms, lastErr
